@@ -1,5 +1,5 @@
 """Property -> rules map, and the reasons for properties not claimed."""
-from .selftest import selftest, user_blueprints
+from .selftest import selftest, user_blueprints, seeded_regression
 from .rules.algebra import rule_algebra, rule_parallel
 from .rules.defassign import rule_defassign
 from .rules.dispatch import rule_dispatch, rule_stable
@@ -19,7 +19,7 @@ from .rules.wiring import rule_passthrough_sort, rule_passthrough_engine, rule_c
 PROPERTIES = {
     "C01": {
         "rules": [rule_dispatch, rule_stable, rule_passthrough_engine, M.rule_varshift, PR.rule_pairs_perm, PR.rule_layout, CD.rule_missingcode, PR.rule_unpermute],
-        "thorough": [selftest],
+        "thorough": [selftest, seeded_regression],
         "technique": "engine-dispatch model + sibling cross-check of kernel signatures (custom AST checker)",
         "level_text": "Static, all-paths: for every kernel name a blueprint can ask for and every engine, the implementation the dispatch "
                       "selects has the NaN discipline its name promises, reduces with the ufunc its name promises, replaces NaN by the "
@@ -29,7 +29,7 @@ PROPERTIES = {
     },
     "C05": {
         "rules": [rule_truthy, rule_fillflow, rule_parallel, rule_counter, CD.rule_identitycodes, CD.rule_labelvalue, CD.rule_missingcode],
-        "thorough": [selftest],
+        "thorough": [selftest, seeded_regression],
         "technique": "def-use fill-family + boolean-context scan; counter-wiring table check (custom AST checker)",
         "level_text": "Static, all-paths: no fill-value-typed expression (nor the optional min_count) is ever coerced to bool, so falsy "
                       "fills (0, 0.0, False) cannot be confused with 'not given'; the validity counter that implements min_count extends "
@@ -39,7 +39,7 @@ PROPERTIES = {
     },
     "C12": {
         "rules": [rule_lazy],
-        "thorough": [selftest],
+        "thorough": [selftest, seeded_regression],
         "technique": "predicate abstraction over dask-ness atoms on the CFG (bitset valuations, no solver) with function summaries",
         "level_text": "Static, all-paths: on every path of the API entry points (and of every function they call while building a "
                       "graph) no materialising primitive (np.asarray, pandas constructors, .compute/.item/.values, iteration, truth value of "
@@ -49,7 +49,7 @@ PROPERTIES = {
     },
     "C13": {
         "rules": [rule_pure, rule_pickle, rule_nondet, rule_args],
-        "thorough": [selftest],
+        "thorough": [selftest, seeded_regression],
         "technique": "interprocedural origins (may-alias) dataflow over the CFG with function summaries; derived task roots",
         "level_text": "Static, all-paths: no function reachable from a graph-embedded callable writes through a parameter, a view or "
                       "alias of one, or an object inside one (subscript/attribute stores, augmented assignment, out=, in-place "
@@ -59,7 +59,7 @@ PROPERTIES = {
     },
     "C14": {
         "rules": [rule_args, rule_global, rule_memo, rule_token],
-        "thorough": [selftest],
+        "thorough": [selftest, seeded_regression],
         "technique": "interprocedural origins dataflow; registry typestate (deep-copied before any store); memoisation key/purity checks",
         "level_text": "Static, all-paths: API-reachable code never writes through an argument, the registry or a memoised result; the "
                       "only module state is two content-keyed memo caches; every explicitly named graph layer is content-named, its token covers every "
@@ -68,7 +68,7 @@ PROPERTIES = {
     },
     "C19": {
         "rules": [rule_raise, rule_defassign, rule_regkey, rule_kwsig, rule_assert, rule_cover, CD.rule_codewidth, rule_loopstore, MB.rule_names, MB.rule_attr, MB.rule_dictkeys, rule_uniquefrom, rule_emptyidx, rule_fillnone, rule_aligned, rule_autorefuse, rule_axisrange, PR.rule_pairs_broadcast],
-        "thorough": [selftest],
+        "thorough": [selftest, seeded_regression],
         "technique": "CFG definite-assignment with guard correlation; call-graph reachability of raises; keyword/signature agreement of "
                      "every resolved call and partial; assert triage table",
         "level_text": "Static, all-paths: four exact ways an internal error can escape are excluded -- a raise of a class other than "
@@ -80,7 +80,7 @@ PROPERTIES = {
     },
     "C02": {
         "rules": [M.rule_plan, rule_algebra, rule_cover, PR.rule_pairs_dummyaxis, rule_token, PR.rule_codelabels],
-        "thorough": [selftest],
+        "thorough": [selftest, seeded_regression],
         "technique": "CFG must-pass-through (finalizer), resolved embeddings of combine/aggregate callables, access-path agreement",
         "level_text": "Static, all-paths: every plan funnels into the one finalizer on every path, only the two sibling combine algorithms "
                       "are embedded and both draw their operator from the same blueprint slot family, intermediates are re-indexed with the "
@@ -90,7 +90,7 @@ PROPERTIES = {
     },
     "C06": {
         "rules": [rule_algebra, rule_order, rule_stable, rule_keys, rule_globalidx, rule_contig],
-        "thorough": [selftest],
+        "thorough": [selftest, seeded_regression],
         "technique": "monoid-table arg rows; taint of block order through unordered containers; stable-sort sites; key injectivity",
         "level_text": "Static, all-paths: the four arg-reduction blueprints pair value/index kernels with matching polarity, NaN discipline, "
                       "fills, finalizer and index preprocessing; block ids reach block selections in positional order on every path; the "
@@ -99,7 +99,7 @@ PROPERTIES = {
     },
     "C07": {
         "rules": [M.rule_sentinel_ravel, PR.rule_pairs_groupers, CD.rule_codewidth, CD.rule_identitycodes, CD.rule_labelvalue, CD.rule_closedside, CD.rule_missingcode, PR.rule_codedep, PR.rule_codelabels],
-        "thorough": [selftest],
+        "thorough": [selftest, seeded_regression],
         "technique": "CFG must-pass-through of a masked sentinel restore",
         "level_text": "Static, all-paths: after the per-grouper codes are combined arithmetically, every path to return restores the "
                       "missing-label code under a mask computed from the input codes. pandas.cut edge semantics and shapes are not decided.",
@@ -107,7 +107,7 @@ PROPERTIES = {
     },
     "C08": {
         "rules": [M.rule_sentinel_offset, M.rule_copermute, PR.rule_pairs_collapse, PR.rule_pairs_outinds, CD.rule_codewidth, PR.rule_layout, rule_axisrange, PR.rule_pairs_broadcast],
-        "thorough": [selftest],
+        "thorough": [selftest, seeded_regression],
         "technique": "CFG must-pass-through of a masked sentinel restore; permutation agreement of labels and values",
         "level_text": "Static, all-paths: after per-slice offsetting of codes, every path to return restores the missing-label code under a "
                       "mask computed from the input codes; the labels' and the values' reduced axes are moved to the end by the same "
@@ -116,7 +116,7 @@ PROPERTIES = {
     },
     "C10": {
         "rules": [M.rule_scantable, rule_stable, M.rule_promote, rule_pure],
-        "thorough": [selftest],
+        "thorough": [selftest, seeded_regression],
         "technique": "registry constant-evaluation + scan table; stable-sort sites",
         "level_text": "Static: the three scan blueprints are consistent (operator identity, carried reduction, in-block scan), bfill is the "
                       "mirror image of ffill, and the group sort feeding ffill is stable. Scan values across chunkings are not decided.",
@@ -124,7 +124,7 @@ PROPERTIES = {
     },
     "C11": {
         "rules": [M.rule_dtypetable, M.rule_finalcast, M.rule_promote, PR.rule_pairs_outinds, M.rule_reindexdtype, M.rule_subsumed, M.rule_accdtype, M.rule_finaldeps],
-        "thorough": [selftest],
+        "thorough": [selftest, seeded_regression],
         "technique": "dtype convention table; CFG must-pass-through of the final cast; access-path agreement of announced meta",
         "level_text": "Static, all-paths: blueprint dtype declarations follow the NumPy convention table, every path of the finalizer casts "
                       "to the announced slot, the engine dispatch result is cast per kernel, the lazy meta is built from the same slot, and the "
@@ -134,7 +134,7 @@ PROPERTIES = {
     },
     "C16": {
         "rules": [M.rule_coindex, rule_passthrough_sort, rule_sorted, rule_token, rule_blocklabels],
-        "thorough": [selftest],
+        "thorough": [selftest, seeded_regression],
         "technique": "syntactic co-indexing of values and labels in one basic block",
         "level_text": "Static: whenever groupby_reduce re-indexes the result along the group axis it re-indexes the labels with the same "
                       "index in the same block, and vice versa; every stage that takes `sort` receives the caller's `sort` unchanged "
@@ -143,7 +143,7 @@ PROPERTIES = {
     },
     "C18": {
         "rules": [M.rule_blockonly, PR.rule_unpermute, rule_token],
-        "thorough": [selftest],
+        "thorough": [selftest, seeded_regression],
         "technique": "registry check; CFG dominance of a refusal over graph construction; three-site agreement",
         "level_text": "Static, all-paths: order statistics declare no block/combine decomposition, a refusal dominates graph construction "
                       "unless the plan is blockwise, and the three sites that special-case the extra leading axis agree with the registry. "
@@ -152,7 +152,7 @@ PROPERTIES = {
     },
     "C20": {
         "rules": [M.rule_collide, M.rule_castorder, rule_infresolve, M.rule_varshift, M.rule_accdtype],
-        "thorough": [selftest],
+        "thorough": [selftest, seeded_regression],
         "technique": "sentinel-collision pattern on NaN substitutes; dtype plumbing of the engine wrappers; widening table",
         "level_text": "Static: no all-NaN detector compares a result with its own NaN substitute unless conjoined with a valid-member "
                       "count; the reduceat calls and output buffer use the requested dtype; numbagg's input casts only widen and the "
@@ -161,7 +161,7 @@ PROPERTIES = {
     },
     "C03": {
         "rules": [rule_keys, rule_order, rule_axiskey, rule_global, rule_algebra, rule_contig, rule_pure],
-        "thorough": [selftest],
+        "thorough": [selftest, seeded_regression],
         "technique": "def-use closure of graph keys over enclosing loops; taint (unordered source -> block selection) with sanitizers; "
                      "module-state scan; associativity column of the monoid table",
         "level_text": "Static, all-paths: the premises of 'a DAG of pure tasks is schedule-independent' for the hand-written tree: every "
@@ -173,7 +173,7 @@ PROPERTIES = {
     },
     "C09": {
         "rules": [rule_cover, rule_keys, rule_axiskey, rule_token, rule_loopstore, rule_bitmask],
-        "thorough": [selftest],
+        "thorough": [selftest, seeded_regression],
         "technique": "def-use closure checks on the planner's cohort->blocks map and on cohort sub-tree keys; content-named subset layers",
         "level_text": "Static, all-paths: the block set stored for a merged cohort is computed from the blocks of every member label (and "
                       "exact cohorts are keyed by each label's own block set), the cohort map never silently overwrites an entry "
@@ -184,7 +184,7 @@ PROPERTIES = {
     },
     "C04": {
         "rules": [rule_algebra, rule_parallel, rule_infresolve, M.rule_subsumed],
-        "thorough": [selftest, user_blueprints],
+        "thorough": [selftest, user_blueprints, seeded_regression],
         "technique": "registry constant-evaluation + table comparison (custom AST checker)",
         "level_text": "Static, all-paths: every registered blueprint's (block kernel, combine, intermediate fill, intermediate dtype, "
                       "finalizer) tuple is a row of the monoid table and the min_count counter extends all parallel tuples. Given that "
